@@ -689,6 +689,24 @@ func runCheck(o *Options) (int, *Evidence) {
 	ev.Coverage["queries_answered_from_cache"] = cached
 	ev.Coverage["checker_cmd"] = "govc check -prop " + o.prop + " -tier " + o.tier + " (VCs regenerated from /repo working tree; solvers: z3-new 5.1.0, cvc5 1.0, z3 4.8.12)"
 	ev.Coverage["by_backend"] = byBackend
+	if o.tier == "thorough" {
+		// verdict of every solver on every query
+		matrix := map[string]map[string]int{}
+		for _, j := range jobs {
+			for _, t := range j.res.Tried {
+				i := strings.Index(t, "=")
+				k := strings.Index(t, "(")
+				if i < 0 || k < i {
+					continue
+				}
+				if matrix[t[:i]] == nil {
+					matrix[t[:i]] = map[string]int{}
+				}
+				matrix[t[:i]][t[i+1:k]]++
+			}
+		}
+		ev.Coverage["solver_matrix"] = matrix
+	}
 	ev.Coverage["solver_seconds"] = solverSeconds
 	ev.Coverage["functions_under_contract"] = funcs
 	ev.Coverage["trusted_functions"] = trusted
